@@ -69,6 +69,10 @@ pub fn load_images(path: &str) -> std::io::Result<[Img; 3]> {
 
 /// read a real file into an image (sparse files read as zeros, which the image drops)
 pub fn img_from_real_file(path: &str) -> std::io::Result<Img> {
+    crate::kernel::untraced(|| img_from_real_file_inner(path))
+}
+
+fn img_from_real_file_inner(path: &str) -> std::io::Result<Img> {
     let mut f = std::fs::File::open(path)?;
     let mut img = Img::new();
     let mut buf = vec![0u8; 1 << 20];
